@@ -8,6 +8,7 @@ import (
 	"go/types"
 	"sort"
 	"strings"
+	"unicode/utf8"
 
 	"verif/checker/core"
 )
@@ -1489,4 +1490,112 @@ func c04r5(rc *core.RC) {
 	if n == 0 {
 		rc.Check(m >= 4, "decoder/text-to-float-conversions", token.NoPos, "decimal text becomes a float only through strconv.ParseFloat (%d call sites); the decoder has no float arithmetic on an integer mantissa", m)
 	}
+}
+
+// ---- C17.R9 the encoder's UTF-8 decoder, folded over whole sequences ----
+
+// decodeRuneInString classifies up to four bytes: a pure function of constant tables, comparisons and two switches. It
+// is folded for a systematic family of byte sequences (every lead byte; for each, every second byte; for the three-
+// and four-byte leads every third byte against boundary fourth bytes and every fourth byte against boundary third
+// bytes; truncated sequences) and compared with Unicode's definition of well-formed UTF-8 (utf8.DecodeRuneInString of
+// the analyser's own standard library): same verdict, same length, and the separator states exactly for U+2028 and
+// U+2029. C17.R6 and C17.R4 decide the first two bytes by shape; this rule decides the whole function by value.
+func c17r9(rc *core.RC) {
+	p := rc.P
+	fd := p.Func("encoder", "decodeRuneInString")
+	key := "encoder.decodeRuneInString/whole-sequences"
+	if fd == nil || fd.Body == nil || fd.Type.Params.NumFields() != 1 {
+		rc.Unknown(key, token.NoPos, "not found")
+		return
+	}
+	rc.Touch("encoder.decodeRuneInString")
+	info := p.Info(fd)
+	sObj := info.Defs[fd.Type.Params.List[0].Names[0]]
+	pk := p.Pkg("encoder")
+	state := func(name string) int64 {
+		if c, ok := pk.Types.Scope().Lookup(name).(*types.Const); ok {
+			if v, exact := constInt64(c); exact {
+				return v
+			}
+		}
+		return -1
+	}
+	stValid, stErr, stLine, stPara := state("validUTF8State"), state("runeErrorState"), state("lineSepState"), state("paragraphSepState")
+	if stValid < 0 || stErr < 0 || stLine < 0 || stPara < 0 {
+		rc.Unknown(key, fd.Pos(), "the state constants were not found")
+		return
+	}
+	// quick tier: one lead byte per class of the definition, three second bytes, eight boundary bytes;
+	// thorough tier: every lead byte from 0xE0, six second bytes, sixteen boundary bytes
+	boundary := []byte{0x00, 0x22, 0x7f, 0x80, 0xa8, 0xa9, 0xbf, 0xc0}
+	seconds := []byte{0x80, 0x90, 0xa0}
+	longLead := map[int]bool{0xE0: true, 0xE1: true, 0xE2: true, 0xED: true, 0xEE: true, 0xEF: true, 0xF0: true, 0xF1: true, 0xF4: true, 0xF5: true, 0xFF: true}
+	if rc.Tier == "thorough" {
+		boundary = []byte{0x00, 0x22, 0x3f, 0x40, 0x5c, 0x7f, 0x80, 0x8f, 0x90, 0x9f, 0xa0, 0xa8, 0xa9, 0xbf, 0xc0, 0xff}
+		seconds = []byte{0x80, 0x8f, 0x90, 0x9f, 0xa0, 0xbf}
+		for l := 0xE0; l < 256; l++ {
+			longLead[l] = true
+		}
+	}
+	var seqs [][]byte
+	for lead := 0; lead < 256; lead++ {
+		seqs = append(seqs, []byte{byte(lead)})
+		for s1 := 0; s1 < 256; s1++ {
+			seqs = append(seqs, []byte{byte(lead), byte(s1)})
+		}
+		if !longLead[lead] {
+			continue
+		}
+		// second bytes of this lead (valid for some leads, not for others), then the third and fourth
+		for _, s1 := range seconds {
+			for s2 := 0; s2 < 256; s2++ {
+				seqs = append(seqs, []byte{byte(lead), s1, byte(s2)})
+				for _, s3 := range boundary {
+					seqs = append(seqs, []byte{byte(lead), s1, byte(s2), s3})
+				}
+			}
+			for _, s2 := range boundary {
+				for s3 := 0; s3 < 256; s3++ {
+					seqs = append(seqs, []byte{byte(lead), s1, s2, byte(s3)})
+				}
+			}
+		}
+	}
+	bp := &core.BytePred{P: p, Strings: map[types.Object][]byte{}}
+	var bad []string
+	n := 0
+	for _, sq := range seqs {
+		bp.Steps = 0
+		bp.Strings[sObj] = sq
+		_, _, done, ok := bp.ExecList(info, fd.Body.List, core.BindAll(nil))
+		if !ok || !done || len(bp.Results) != 2 {
+			rc.Unknown(key, fd.Pos(), "decodeRuneInString could not be folded for the bytes % x (a construct outside straight-line code, if, switch and constant tables)", sq)
+			return
+		}
+		n++
+		gotState, gotSize := bp.Results[0], bp.Results[1]
+		r, size := utf8.DecodeRuneInString(string(sq))
+		wantState, wantSize := stValid, int64(size)
+		switch {
+		case r == utf8.RuneError && size <= 1:
+			wantState, wantSize = stErr, 1
+		case r == 0x2028:
+			wantState = stLine
+		case r == 0x2029:
+			wantState = stPara
+		}
+		if gotState != wantState || gotSize != wantSize {
+			if len(bad) < 6 {
+				bad = append(bad, fmt.Sprintf("% x: state %d size %d (wanted state %d size %d)", sq, gotState, gotSize, wantState, wantSize))
+			} else if len(bad) == 6 {
+				bad = append(bad, "…")
+			}
+		}
+	}
+	rc.Check(len(bad) == 0, key, fd.Pos(), "decodeRuneInString folded for %d byte sequences agrees with the definition of well-formed UTF-8 (verdict, length, U+2028/U+2029)%s", n, func() string {
+		if len(bad) == 0 {
+			return ""
+		}
+		return "; differs for: " + strings.Join(bad, "; ") + " — a sequence taken for a valid rune is copied to the output unexamined: invalid UTF-8, or a quote, backslash or control character inside it, reaches the output raw"
+	}())
 }
